@@ -106,6 +106,10 @@ class Scope(object):
     self.function_name = function_name
 
     self.isolated_names = set()
+    # Names bound by except clauses of this scope or of nested blocks. They
+    # are not visible as activity here, but they are in the code: symbols
+    # generated for this scope must not reuse them.
+    self.hidden = set()
 
     self.read = set()
     self.modified = set()
@@ -133,7 +137,7 @@ class Scope(object):
   def referenced(self):
     # Names that are only written count as well: this set is what generated
     # symbols must avoid.
-    names = self.read | self.modified | self.bound
+    names = self.read | self.modified | self.bound | self.hidden
     if self.parent is not None:
       return names | self.parent.referenced
     return names
@@ -150,6 +154,7 @@ class Scope(object):
       assert other.parent is not None
       self.parent.copy_from(other.parent)
     self.isolated_names = copy.copy(other.isolated_names)
+    self.hidden = copy.copy(other.hidden)
     self.modified = copy.copy(other.modified)
     self.read = copy.copy(other.read)
     self.deleted = copy.copy(other.deleted)
@@ -175,6 +180,7 @@ class Scope(object):
       assert other.parent is not None
       self.parent.merge_from(other.parent)
     self.isolated_names.update(other.isolated_names)
+    self.hidden.update(other.hidden)
     self.read.update(other.read)
     self.modified.update(other.modified)
     self.bound.update(other.bound)
@@ -195,6 +201,7 @@ class Scope(object):
         self.parent.globals.update(self.globals)
         self.parent.nonlocals.update(self.nonlocals)
         self.parent.annotations.update(self.annotations)
+        self.parent.hidden.update(self.hidden)
       else:
         # TODO(mdan): This is not accurate.
         self.parent.read.update(self.read - self.bound)
@@ -713,9 +720,11 @@ class ActivityAnalyzer(transformer.Base):
     if node.name is not None:
       if isinstance(node.name, str):
         # In the stdlib ast the handler name is a plain string, not a Name node.
-        self.scope.isolated_names.add(qual_names.QN(node.name))
+        handler_name = qual_names.QN(node.name)
       else:
-        self.scope.isolated_names.add(anno.getanno(node.name, anno.Basic.QN))
+        handler_name = anno.getanno(node.name, anno.Basic.QN)
+      self.scope.isolated_names.add(handler_name)
+      self.scope.hidden.add(handler_name)
     node = self.generic_visit(node)
     self._exit_scope()
     return node
